@@ -644,6 +644,59 @@ fn err_class(e: &str) -> String {
     e.split_whitespace().take(2).collect::<Vec<_>>().join("_")
 }
 
+fn find_node<'a>(g: &'a Graph, name: &str) -> Option<&'a Node> {
+    for n in &g.nodes {
+        if n.name == name {
+            return Some(n);
+        }
+        for (_, a) in &n.attrs {
+            if let Attr::Graph(sub) = a {
+                if let Some(f) = find_node(sub, name) {
+                    return Some(f);
+                }
+            }
+        }
+    }
+    None
+}
+
+fn count_conv_without_ks(g: &Graph) -> usize {
+    let mut k = 0;
+    for n in &g.nodes {
+        if matches!(n.op_type.as_str(), "Conv" | "ConvInteger" | "ConvTranspose") && !n.attrs.iter().any(|(a, _)| a == "kernel_shape") {
+            k += 1;
+        }
+        for (_, a) in &n.attrs {
+            if let Attr::Graph(sub) = a {
+                k += count_conv_without_ks(sub);
+            }
+        }
+    }
+    k
+}
+
+/// ` [failing node: op_type=Conv kernel_shape=absent attrs=strides,pads]` for the operator a
+/// run error names, looked up in the ONNX graph the harness generated.
+pub fn node_note(g: &Graph, err: &str) -> String {
+    let Some(rest) = err.split("operator \"").nth(1) else { return String::new() };
+    let name = rest.split('"').next().unwrap_or("");
+    match find_node(g, name) {
+        Some(n) => {
+            let has = |k: &str| if n.attrs.iter().any(|(a, _)| a == k) { "present" } else { "absent" };
+            let mut names: Vec<&str> = n.attrs.iter().map(|(a, _)| a.as_str()).collect();
+            names.sort();
+            format!(
+                " [failing node: op_type={} kernel_shape={} attrs={}; conv-family nodes without kernel_shape in graph: {}]",
+                n.op_type,
+                has("kernel_shape"),
+                if names.is_empty() { "-".to_string() } else { names.join(",") },
+                count_conv_without_ks(g)
+            )
+        }
+        None => " [failing node: not in the generated graph]".to_string(),
+    }
+}
+
 pub fn compare(e: &E2e, c: &Converted) -> Verdict {
     let mut buckets = vec![];
     let outs = e.out_names();
@@ -658,7 +711,7 @@ pub fn compare(e: &E2e, c: &Converted) -> Verdict {
         let onnx_out = load_file(&c.onnx_path, false).ok().and_then(|m| run_model(&m, &e.feeds, &outs).ok());
         return Verdict { answer: class, fail: None, buckets, onnx_out };
     }
-    let mut fail: Option<String> = None;
+    let mut fails: Vec<String> = vec![];
     let mut answer = String::new();
     let mut onnx_out = None;
     for optimize in [false, true] {
@@ -675,7 +728,7 @@ pub fn compare(e: &E2e, c: &Converted) -> Verdict {
             (Ok(_), Err(er)) => {
                 buckets.push(format!("{tag}:rten_load_err"));
                 answer.push_str(&format!("{tag}=rten-load-err "));
-                fail.get_or_insert(format!("{tag}: converter succeeded and the ONNX file loads, but the .rten file does not load: {er}"));
+                fails.push(format!("{tag}: converter succeeded and the ONNX file loads, but the .rten file does not load: {er}"));
                 continue;
             }
             (Err(eo), Ok(_)) => {
@@ -687,7 +740,7 @@ pub fn compare(e: &E2e, c: &Converted) -> Verdict {
         };
         let (io_o, io_r) = (io_names(&mo), io_names(&mr));
         if io_o != io_r {
-            fail.get_or_insert(format!("{tag}: model inputs/outputs differ: onnx {:?} vs rten {:?}", io_o, io_r));
+            fails.push(format!("{tag}: model inputs/outputs differ: onnx {:?} vs rten {:?}", io_o, io_r));
         }
         let ro = run_model(&mo, &e.feeds, &outs);
         let rr = run_model(&mr, &e.feeds, &outs);
@@ -700,7 +753,7 @@ pub fn compare(e: &E2e, c: &Converted) -> Verdict {
                 Some(d) => {
                     buckets.push(format!("{tag}:DIFFERENT_outputs"));
                     answer.push_str(&format!("{tag}=diff "));
-                    fail.get_or_insert(format!("{tag}: outputs differ (onnx vs rten): {d}"));
+                    fails.push(format!("{tag}: outputs differ (onnx vs rten): {d}"));
                 }
             },
             (Err(a), Err(b)) => {
@@ -713,18 +766,21 @@ pub fn compare(e: &E2e, c: &Converted) -> Verdict {
             (Ok(_), Err(b)) => {
                 buckets.push(format!("{tag}:rten_run_err"));
                 answer.push_str(&format!("{tag}=rten-run-err "));
-                fail.get_or_insert(format!("{tag}: ONNX file runs but the converted file fails: {b}"));
+                fails.push(format!("{tag}: ONNX file runs but the converted file fails: {b}{}", node_note(&e.graph, b)));
             }
             (Err(a), Ok(_)) => {
                 buckets.push(format!("{tag}:onnx_run_err"));
                 answer.push_str(&format!("{tag}=onnx-run-err "));
-                fail.get_or_insert(format!("{tag}: converted file runs but the ONNX file fails: {a}"));
+                fails.push(format!("{tag}: converted file runs but the ONNX file fails: {a}{}", node_note(&e.graph, a)));
             }
         }
         if !optimize {
             onnx_out = ro.ok();
         }
     }
+    // every failure of the case is reported (both optimization modes), so that a known finding
+    // about one of them cannot hide a different one
+    let fail = if fails.is_empty() { None } else { Some(fails.join(" ;; ")) };
     Verdict { answer: answer.trim().to_string(), fail, buckets, onnx_out }
 }
 
